@@ -61,6 +61,25 @@ group and in SetBlockHistory, lazy eviction in Cache.Get): real-goroutine stress
 timing-independent verdicts (C06, C07, C08, C10, C13); (iv) *clauses K did not state* (not agreed again
 while in flight everywhere, report-level transmit for multi-key v2 reports, events seen before the
 accept): K extended (C09, C17, C06/C07).
+
+Wave 3 (60 further changes, third session; ids `Cxx-w3-k`) was seeded after the decision-code translator of
+§10.4 existed. 45 were flagged by the owning check on the first run; the 15 misses fell into new classes:
+(v) *values handed to a caller that change afterwards* (results, decoded observations backed by a recycled
+pool object or an internal buffer): C13 and C15 re-read what earlier calls returned after later calls;
+(vi) *abandoned attempts* (the same sequence number tried twice with other observations; per-(seq, observer)
+caches; an outcome remembered from an uncommitted attempt): two of the three long-lived instances of the
+outcome harness go through such attempts before every round; (vii) *events between two steps the harness
+had glued together* (an accept between the sampling of a head and the observation; a context cancelled
+between two upkeeps of one report; a transmit after the last block; a Stop before the collector goroutine
+ran): C16/C17 `Post` operations, C06 log-sink scheduling point, C20 late transmits, C18 part D;
+(viii) *adversarial inputs that happened to be harmless* (the Byzantine variant always sorted after the
+honest copy because the digest is raw hex): C09 variants now sort on both sides; (ix) *releases that were
+not check-block aware* in the C09 bookkeeping; (x) *real races on the retry queue and in the simulator's
+trackers*: TestC12QueueRace, TestC20Race (component stress under `-race`).
+A rewritten function usually leaves the translator's subset: the obligation of that unit is then checked
+against the pinned term only and the property is explored as *drifted* (twice the cases, three seeds) - of
+the 45 first-run catches, the translator obligations broke (proof-level catch, then a failing input found by
+the escalated search) for the changes that kept the shape, e.g. C09-w3-1 through `C01_gen_set_pick_decisions`.
 """ % (n, caught_first, "\n".join(rows))
 p = os.path.join(V, "DESIGN.md")
 s = open(p).read()
